@@ -41,26 +41,44 @@ func cmdBuiltins(args []string) {
 	out := fs.String("out", "builtin.ndjson", "")
 	repo := fs.String("repo", "/repo", "")
 	seed := fs.Int64("seed", 1, "")
+	polluteFirst := fs.Bool("pollute-first", false, "use many other recipes in this process BEFORE the built-ins are read for the first time")
 	fs.Parse(args)
 	em := NewEmitter(*out)
-	for pass := 0; pass < 2; pass++ {
-		if pass == 1 {
-			// the second pass reads every built-in again AFTER many other recipes were used in this process
-			// (a process-wide memo keyed too coarsely would now answer for the wrong recipe)
-			for a := 0; a < 32; a++ {
-				for rq := 0; rq < 32; rq++ {
-					for _, x := range []int{0, 16, 4, 31} {
-						r := spg.CharRecipe{Length: 3, Allow: spg.CTFlag(a), Require: spg.CTFlag(rq), Exclude: spg.CTFlag(x)}
-						_ = r.Alphabet()
-						if a%8 == 7 && rq%4 == 1 {
-							_ = r.Entropy()
-							r.Generate()
-						}
+	// many other recipes used in this process: a process-wide memo keyed too coarsely then answers for the wrong recipe -
+	// the one that comes SECOND.  So the built-ins are read (a) fresh, (b) again after the others, and, in a separate
+	// process (-pollute-first), (c) for the first time after the others.
+	pollute := func() {
+		for a := 0; a < 32; a++ {
+			for rq := 0; rq < 32; rq++ {
+				for _, x := range []int{0, 16, 4, 31} {
+					// never the built-in recipes themselves (default, presets, single-class alphabets): in the -pollute-first
+					// process they must come SECOND to whatever might collide with them
+					if rq == 0 && (x == 0 || (x == 16 && (a == 15 || a == 4))) {
+						continue
+					}
+					r := spg.CharRecipe{Length: 3, Allow: spg.CTFlag(a), Require: spg.CTFlag(rq), Exclude: spg.CTFlag(x)}
+					_ = r.Alphabet()
+					if a%8 == 7 && rq%4 == 1 {
+						_ = r.Entropy()
+						r.Generate()
 					}
 				}
 			}
 		}
-		emitBuiltins(em, *repo, *seed, pass)
+		for _, rr := range []spg.CharRecipe{{Length: 1, Allow: spg.Digits, Require: spg.Uppers}, {Length: 2, Allow: spg.Digits, Require: spg.Uppers},
+			{Length: 1, Allow: spg.Symbols | spg.Digits, Require: spg.Lowers}, {Length: 20, Allow: spg.All, Require: spg.Uppers}} {
+			_ = rr.Alphabet()
+			_ = rr.Entropy()
+			rr.Generate()
+		}
+	}
+	if *polluteFirst {
+		pollute()
+		emitBuiltins(em, *repo, *seed, 1)
+	} else {
+		emitBuiltins(em, *repo, *seed, 0)
+		pollute()
+		emitBuiltins(em, *repo, *seed, 1)
 	}
 	em.Close()
 	fmt.Printf("{\"events\":%d}\n", em.N)
